@@ -212,8 +212,10 @@ func (its *clientImpl) subscribeOrCreateDatatype(
 	// TODO: this would be better go into datatypeManager
 	if its.datatypeManager != nil {
 		data, err := its.datatypeManager.ExistDatatype(key, typeOf)
-		if err != nil && handler != nil {
-			handler.errorHandler(nil, err)
+		if err != nil { // the key is held with another type: refused, whether or not there is a handler to tell
+			if handler != nil && handler.errorHandler != nil {
+				handler.errorHandler(nil, err)
+			}
 			return nil
 		}
 		if data != nil {
@@ -246,7 +248,7 @@ func (its *clientImpl) subscribeOrCreateDatatype(
 		}
 	}
 
-	if handler != nil && errs.Return() != nil {
+	if handler != nil && handler.errorHandler != nil && errs.Return() != nil {
 		handler.errorHandler(nil, errs.ToArray()...)
 	}
 	return datatype
